@@ -27,6 +27,20 @@ def parse_one(chunk):
     return op, chunk[5:]
 
 
+def parse_many(chunk):
+    """-> list of (op, body) if chunk is exactly a concatenation of two or more well-framed messages, else None"""
+    out, off = [], 0
+    while off < len(chunk):
+        if len(chunk) - off < 5:
+            return None
+        ml, op = struct.unpack('!iB', chunk[off:off + 5])
+        if op > 5 or ml > P.SIZES.get(op, P.MAXBUF) or ml < 5 or len(chunk) - off < ml:
+            return None
+        out.append((op, chunk[off + 5:off + ml]))
+        off += ml
+    return out if len(out) >= 2 else None
+
+
 def unpack8(b):
     if len(b) < 1:
         raise ValueError
@@ -47,6 +61,8 @@ class Judge:
                 self.cfg[ident] = (unjbytes(row[0]).decode('utf-8'),
                                    [unjbytes(c).decode('utf-8') for c in (row[1] or [])],
                                    [unjbytes(c).decode('utf-8') for c in (row[2] or [])])
+        # identities whose row lacks a channel list make the real authenticate() raise: never judged as "accepted"
+        self.fragile = {unjbytes(ij).decode('utf-8') for ij, row in case['db'] if row is not None and (row[1] is None or row[2] is None)}
         self.name = unjbytes(case['name']).decode('utf-8')
         self.st = {}
         self.fail = {}          # property id -> first failure text
@@ -134,6 +150,9 @@ class Judge:
             return
         # ---- one frame from q -----------------------------------------------------------------
         chunk = unjbytes(ev[2])
+        many = None if st['desync'] else parse_many(chunk)
+        if many is not None and self.step_pipelined(k, rec, q, st, many, newf, newclose):
+            return
         fr = parse_one(chunk)
         if st['desync'] or fr is None:
             st['desync'] = True
@@ -216,6 +235,8 @@ class Judge:
             self.note('publish-accepted')
             want_frame = (P.OP_PUBLISH, P.strpack8(me) + P.strpack8(chan) + bytes(payload))
             for r, s in self.st.items():
+                if s['desync']:
+                    continue        # what r asked for is not known frame by frame: no expectation about it
                 got = [f for f in newf.get(r, []) if f[0] == P.OP_PUBLISH]
                 entitled = chan in s['held'] and not s['closing'] and not s['lost']
                 if entitled:
@@ -261,6 +282,86 @@ class Judge:
             self.flag('C10', k, 'permitted (UN)SUBSCRIBE by %d answered with error/disconnect (%s)' % (q, rec['raised']))
             st['closing'] = st['closing'] or q in newclose
         self.expect_quiet(k, newf, others_closed, except_q=q, ctx='(un)subscribe', pid='C08')
+
+    # -- several whole frames in one read (pipelining) ------------------------------------------------
+    def classify(self, st, op, body):
+        """what a well-formed, PERMITTED request amounts to under the connection's current identity; None for anything
+        that must be refused or dropped (such a read is not judged frame by frame)"""
+        try:
+            if op == P.OP_AUTH:
+                ident, dg = unpack8(body)
+                row = self.cfg.get(ident)
+                if row and ident not in self.fragile and hashlib.sha1(st['nonce'] + row[0].encode('utf-8')).digest() == bytes(dg):
+                    return ('auth', ident)
+                return None
+            me = st['authed']
+            if me is None:
+                return None
+            row = self.cfg.get(me) or ('', [], [])
+            if op == P.OP_PUBLISH:
+                ident, rest = unpack8(body)
+                chan, payload = unpack8(rest)
+                return ('pub', chan, bytes(payload)) if ident == me and chan in row[1] else None
+            if op == P.OP_SUBSCRIBE:
+                ident, rest = unpack8(body)
+                chan = bytes(rest).decode('utf-8')
+                return ('sub', chan) if chan in row[2] else None
+            if op == P.OP_UNSUBSCRIBE:
+                ident, rest = unpack8(body)
+                return ('unsub', bytes(rest).decode('utf-8'))
+        except Exception:
+            return None
+        return None
+
+    def step_pipelined(self, k, rec, q, st, frames, newf, newclose):
+        """a read made of several whole frames, all of them permitted: every one of them takes effect, in order, before
+        data_received returns (synchronous store).  -> False when some frame is not a permitted request (not judged here)"""
+        if st['closing'] or st['lost']:
+            return False
+        saved = (st['authed'], set(st['held']), dict(st['grants']))
+        expected = {r: [] for r in self.st}
+        acts = []
+        for op, body in frames:
+            a = self.classify(st, op, body)
+            if a is None:
+                st['authed'], st['held'], st['grants'] = saved
+                return False
+            acts.append(a)
+            if a[0] == 'auth':
+                st['authed'] = a[1]
+            elif a[0] == 'sub':
+                st['held'].add(a[1])
+                st['grants'][a[1]] = st['authed']
+            elif a[0] == 'unsub':
+                st['held'].discard(a[1])
+            else:
+                me = st['authed']
+                frame = (P.OP_PUBLISH, P.strpack8(me) + P.strpack8(a[1]) + a[2])
+                for r, s in self.st.items():
+                    if a[1] in s['held'] and not s['closing'] and not s['lost']:
+                        expected[r].append(frame)
+        self.note('pipelined-read')
+        for r in self.st:
+            if self.st[r]['desync']:
+                continue            # what r asked for is not known frame by frame: no expectation about it
+            got = [f for f in newf.get(r, []) if f[0] == P.OP_PUBLISH]
+            if got != expected[r]:
+                what = ('a read of %d pipelined permitted frames %r from %d: connection %d was sent %d PUBLISH frame(s), expected %d '
+                        '(every frame of the read must have taken effect, in order)'
+                        % (len(frames), [a[0] for a in acts], q, r, len(got), len(expected[r])))
+                self.flag('C01', k, what)
+                self.flag('C08', k, what)
+                self.flag('C10', k, what)
+            other = [o for o, _ in newf.get(r, []) if o != P.OP_PUBLISH]
+            if other:
+                self.flag('C10', k, 'a read of pipelined permitted frames from %d: connection %d was written %r' % (q, r, other))
+                self.flag('C08', k, 'a read of pipelined permitted frames from %d: connection %d was written %r' % (q, r, other))
+        if newclose or rec['raised']:
+            self.flag('C10', k, 'a read of pipelined permitted frames from %d disconnected %s / raised %s' % (q, sorted(newclose), rec['raised']))
+            self.flag('C08', k, 'a read of pipelined permitted frames from %d disconnected %s / raised %s' % (q, sorted(newclose), rec['raised']))
+            for r in newclose:
+                self.st[r]['closing'] = True
+        return True
 
     def expect_quiet(self, k, newf, closed, except_q, ctx, pid, allow_error_to=None):
         """nobody (but except_q) is written anything or disconnected by this event"""
